@@ -113,7 +113,8 @@ def _eval(item_rule, path, spname, p, sig=""):
         _MEMO[key] = out
         return out
     spec = sp.spec(dict(p), {"id": item_rule, "path": path, "sig": sig}) if sp.spec is not None else None
-    res = core.judge(rule, model, mb.feeds(), spec=spec, accum=sp.accum)
+    loose = sp.tol(dict(p), {"id": item_rule, "path": path, "sig": sig}) if sp.tol is not None else 1.0
+    res = core.judge(rule, model, mb.feeds(), spec=spec, accum=sp.accum, loose=loose)
     kinds = [k for k, _ in res["problems"]]
     primary = next((k for k in _PRIORITY if k in kinds), None)
     show = None
